@@ -18,10 +18,12 @@ try:
 except FileNotFoundError:
     hooks_commits = {"source_commits": []}
 
+# only checks the coordinator has run and reviewed are claimed
+approved = set(json.load(open(os.path.join(HERE, "meta", "approved.json"))))
 checks, na, engines = [], [], {}
 for pid in props:
     mp = os.path.join(HERE, "meta", pid + ".json")
-    if not os.path.exists(mp):
+    if not os.path.exists(mp) or pid not in approved:
         na.append({"property_id": pid, "reason": not_claimed.get(pid, "check not built yet in this session (planned in DESIGN.md section 5); no claim is made")})
         continue
     m = json.load(open(mp))
